@@ -20,6 +20,7 @@ pub struct Token(pub Which);
 pub fn adversarial_alphabet(lang: &str) -> Vec<&'static str> {
     let (letter, capital, mark, expanding, composed, base) = match lang {
         "de" => ("a", "B", "\u{308}", "ß", "ö", "o"),
+        "xd" => ("a", "B", "\u{301}", "ß", "é", "e"),
         "es" => ("a", "B", "\u{301}", "ß", "ñ", "e"),
         "fr" => ("a", "B", "\u{301}", "œ", "é", "e"),
         "pt" => ("a", "B", "\u{303}", "ß", "ã", "a"),
@@ -37,6 +38,10 @@ pub fn adversarial_alphabet(lang: &str) -> Vec<&'static str> {
     if lang == "xr" {
         // a separator that the language's reductions lengthen
         a.push("\u{2026}");
+    }
+    if lang == "xc" {
+        // a character the language's compositions delete
+        a.push("\u{ad}");
     }
     a
 }
@@ -97,7 +102,7 @@ fn one_to_one_case(c: char) -> Option<char> {
 
 fn accented_function_words(lang: &str) -> Vec<&'static str> {
     match lang {
-        "de" => vec!["für", "während", "bloß", "über", "Für", "BLOSS"],
+        "de" | "xd" => vec!["für", "während", "bloß", "über", "Für", "BLOSS"],
         "fr" => vec!["à", "où", "après", "derrière", "malgré", "opposé", "ô", "À"],
         "es" => vec!["según", "más", "próximo", "vía", "Más"],
         "pt" => vec!["não", "às", "até", "além", "atrás", "porém", "então", "próximo"],
